@@ -650,11 +650,19 @@ func (e *exprCtx) expr(v ssa.Value) string {
 			}
 			if a, ok := x.X.(*ssa.Alloc); ok {
 				// a local whose address is taken: resolve through its unique store
-				if st := uniqueStore(a); st != nil && !e.seen[a] {
+				if st := uniqueStore(a); st != nil && !e.seen[a] && (st.Parent() != x.Parent() || instrDominates(st, x) || (x.Parent() != nil && x.Block() == x.Parent().Recover)) {
 					e.seen[a] = true
 					s := e.expr(st.Val)
 					delete(e.seen, a)
 					return s
+				}
+				// written once, but not on every way to this load (a named result assigned in one branch and returned as
+				// it is in another): what is read is the stored value or the zero value
+				if st := uniqueStore(a); st != nil && !e.seen[a] && st.Parent() == x.Parent() {
+					e.seen[a] = true
+					s := e.expr(st.Val)
+					delete(e.seen, a)
+					return "maybe(" + s + "|zero(" + typeName(deref(a.Type())) + "))"
 				}
 				// never written: the zero value, whatever the variable is called and however it came about
 				// (an unassigned named result, `var x T`, an empty composite literal)
